@@ -94,6 +94,8 @@ class Shapecheck:
         raw = specs.raw_params(fn["path"])
         inv.RANGE_PARAM[0] = fn["name"] in ("to_range", "get_range", "set_range")
         inv.SELF_KIND[0] = "array" if fn.get("trait_default_of", "").startswith("array::traits") else None
+        if fn.get("trait_default_of", "") == "indexed_coproduct::arrow::HasLen":
+            inv.SELF_KIND[0] = "ff"          # default method analysed at the FiniteFunction implementation
         if fn.get("trait_default_of", "") == "category::spider::Spider":
             inv.SELF_KIND[0] = "strict-oh"   # the default method is analysed at the strict implementation
         try:
@@ -114,6 +116,7 @@ class Shapecheck:
             vals0 = [st.env[a.place[0]] if isinstance(a, VMutRef) else a for a in args]
             self.entry_assumed[key] = specs.entry_assumptions(fn["path"], names, vals0, st, self, fr0)
             self.entry_assumed[key] += specs.override_args(fn["path"], names, args, st)
+            pre_muts = {nm: st.env[root] for (nm, root) in muts}
             t0 = time.time()
             import signal
 
@@ -125,7 +128,8 @@ class Shapecheck:
                 outs = I.call_fn(fn, args, st, fr0, {"sp": fn["sp"], "k": "entry"})
             finally:
                 signal.alarm(0)
-            res = {"fn": fn, "key": key, "outs": outs, "args": args, "muts": muts, "st0": st, "fr0": fr0}
+            res = {"fn": fn, "key": key, "outs": outs, "args": args, "muts": muts, "st0": st, "fr0": fr0,
+                   "pre_muts": pre_muts}
             # INV of every value leaving the function
             chk = Frame(fn, None)
             for (s, v, c) in outs:
